@@ -387,6 +387,20 @@ func (e *Enc) indexSV(a, i SV, env *SpecEnv, s *Spec) SV {
 }
 
 func (e *Enc) evalField(s *Spec, env *SpecEnv) SV {
+	// pkg.Const of an imported package
+	if s.A.Kind == SName && env.pkg != nil {
+		if _, bound := env.names[s.A.Name]; !bound {
+			for _, imp := range env.pkg.Imports() {
+				if imp.Name() != s.A.Name {
+					continue
+				}
+				if c, ok := imp.Scope().Lookup(s.Name).(*types.Const); ok && c.Val().Kind() == constant.Int {
+					bi, _ := constBigFrom(c.Val())
+					return SV{T: smtInt(bi), S: "Int", GoT: c.Type()}
+				}
+			}
+		}
+	}
 	base := e.evalSpec(s.A, env)
 	name := s.Name
 	if base.a != nil {
